@@ -5,8 +5,11 @@ import (
 	"go/ast"
 	"go/token"
 	"go/types"
+	"sort"
 
 	"rocheck/internal/check"
+	"rocheck/internal/load"
+	"rocheck/internal/model"
 )
 
 // NIL-GUARD-POLARITY: a contradiction rule. Code that tests X against nil believes X can be nil; a use of X that
@@ -211,5 +214,203 @@ func (v *verifControlNilGuard) emit(x int) {
 	if v.next == nil {
 		v.next(x)
 	}
+}
+`
+
+// ruleNilableCallbackGuarded: sibling consistency for function-typed fields that some method believes may be nil.
+func ruleNilableCallbackGuarded() check.Rule {
+	return check.Rule{
+		Name:        "NILABLE-CALLBACK-GUARDED",
+		Doc:         "belief rule: when a method of a type tests a function-typed field of its receiver against nil (the constructors store whatever callback the user passed, nil included), every call through that field in the methods of the type is dominated by the non-nil edge of such a test — in the calling method itself, or, for an unexported helper method, at every call site of the helper in the methods of the type (followed three levels up). A callback invoked without the test turns a notification the observer does not listen to into a nil-function panic inside the delivery path: the dropped-notification hook is not called and a spurious error is delivered instead",
+		NeedControl: true,
+		Run: func(c *check.Ctx) {
+			m := c.M
+			for _, p := range m.Pkgs {
+				armed := c.ArmedPkg(p.PkgPath)
+				info := p.TypesInfo
+				// methods by receiver type name
+				methods := map[string][]*ast.FuncDecl{}
+				for _, f := range p.Syntax {
+					for _, d := range f.Decls {
+						if fd, ok := d.(*ast.FuncDecl); ok && fd.Body != nil && fd.Recv != nil && len(fd.Recv.List) == 1 {
+							methods[load.RecvTypeName(fd.Recv.List[0].Type)] = append(methods[load.RecvTypeName(fd.Recv.List[0].Type)], fd)
+						}
+					}
+				}
+				var tnames []string
+				for tn := range methods {
+					tnames = append(tnames, tn)
+				}
+				sort.Strings(tnames)
+				for _, tn := range tnames {
+					ms := methods[tn]
+					recvOf := func(fd *ast.FuncDecl) types.Object {
+						if len(fd.Recv.List[0].Names) == 1 {
+							return info.Defs[fd.Recv.List[0].Names[0]]
+						}
+						return nil
+					}
+					// field name of `recv.F` when e is such a selector of a function-typed field
+					fieldOf := func(fd *ast.FuncDecl, e ast.Expr) string {
+						sel, ok := ast.Unparen(e).(*ast.SelectorExpr)
+						if !ok {
+							return ""
+						}
+						id, ok := ast.Unparen(sel.X).(*ast.Ident)
+						if !ok || recvOf(fd) == nil || objOf(info, id) != recvOf(fd) {
+							return ""
+						}
+						s, ok := info.Selections[sel]
+						if !ok || s.Kind() != types.FieldVal {
+							return ""
+						}
+						if _, isFunc := s.Type().Underlying().(*types.Signature); !isFunc {
+							return ""
+						}
+						return sel.Sel.Name
+					}
+					nilTestField := func(fd *ast.FuncDecl, e ast.Expr) (string, bool) { // field, isEq
+						be, ok := ast.Unparen(e).(*ast.BinaryExpr)
+						if !ok || (be.Op != token.EQL && be.Op != token.NEQ) {
+							return "", false
+						}
+						isNil := func(x ast.Expr) bool {
+							id, ok := ast.Unparen(x).(*ast.Ident)
+							if !ok {
+								return false
+							}
+							_, n := info.Uses[id].(*types.Nil)
+							return n
+						}
+						switch {
+						case isNil(be.Y):
+							return fieldOf(fd, be.X), be.Op == token.EQL
+						case isNil(be.X):
+							return fieldOf(fd, be.Y), be.Op == token.EQL
+						}
+						return "", false
+					}
+					believed := map[string]bool{}
+					for _, fd := range ms {
+						ast.Inspect(fd.Body, func(n ast.Node) bool {
+							if e, ok := n.(ast.Expr); ok {
+								if f, _ := nilTestField(fd, e); f != "" {
+									believed[f] = true
+								}
+							}
+							return true
+						})
+					}
+					if len(believed) == 0 {
+						continue
+					}
+					byName := map[string]*ast.FuncDecl{}
+					for _, fd := range ms {
+						byName[fd.Name.Name] = fd
+					}
+					// is target (inside fd) dominated by the non-nil edge of a test of recv.field?
+					guardedIn := func(fd *ast.FuncDecl, target ast.Node, field string) bool {
+						atom := func(e ast.Expr) int {
+							f, isEq := nilTestField(fd, e)
+							if f != field {
+								return 0
+							}
+							if isEq {
+								return -1
+							}
+							return +1
+						}
+						// innermost enclosing function literal first, then outwards
+						chain := m.EnclosingFuncs(p, target)
+						for i := len(chain) - 1; i >= 0; i-- {
+							if guardedBy(funcBody(chain[i]), target, atom) {
+								return true
+							}
+							target = chain[i]
+						}
+						return false
+					}
+					var guarded func(fd *ast.FuncDecl, target ast.Node, field string, depth int) bool
+					guarded = func(fd *ast.FuncDecl, target ast.Node, field string, depth int) bool {
+						if guardedIn(fd, target, field) {
+							return true
+						}
+						if fd.Name.IsExported() || depth >= 3 {
+							return false
+						}
+						// every call site of this unexported helper in the methods of the type
+						sites := 0
+						ok := true
+						for _, caller := range ms {
+							ast.Inspect(caller.Body, func(n ast.Node) bool {
+								call, isCall := n.(*ast.CallExpr)
+								if !isCall {
+									return true
+								}
+								sel, isSel := ast.Unparen(call.Fun).(*ast.SelectorExpr)
+								if !isSel || sel.Sel.Name != fd.Name.Name {
+									return true
+								}
+								if id, isId := ast.Unparen(sel.X).(*ast.Ident); !isId || recvOf(caller) == nil || objOf(info, id) != recvOf(caller) {
+									return true
+								}
+								sites++
+								if !guarded(caller, call, field, depth+1) {
+									ok = false
+								}
+								return true
+							})
+						}
+						return ok && sites > 0
+					}
+					for _, fd := range ms {
+						n := 0
+						ast.Inspect(fd.Body, func(x ast.Node) bool {
+							call, ok := x.(*ast.CallExpr)
+							if !ok {
+								return true
+							}
+							f := fieldOf(fd, call.Fun)
+							if f == "" || !believed[f] {
+								return true
+							}
+							n++
+							key := fmt.Sprintf("%s.%s.%s/call-%s#%d", model.ShortPkg(p.PkgPath), tn, fd.Name.Name, f, n)
+							c.Inc("nilable_callback_calls", 1)
+							if guarded(fd, call, f, 0) {
+								if armed {
+									c.OK(key, call.Pos(), "the call through "+f+" is reached only where a test says the field is not nil")
+								}
+							} else {
+								c.Report(armed, key, call.Pos(), "the callback field %s is tested against nil elsewhere in %s's methods, but this call is reachable without such a test (neither here nor at every call site of %s): a nil callback panics inside the delivery path instead of the notification being dropped through the hook", f, tn, fd.Name.Name)
+							}
+							return true
+						})
+					}
+				}
+			}
+		},
+	}
+}
+
+const controlsNilableCallback = `
+type verifControlNilable struct {
+	onNext  func(int)
+	onError func(error)
+}
+
+func (v *verifControlNilable) Next(x int) {
+	v.tryNext(x)
+}
+
+func (v *verifControlNilable) Error(err error) {
+	if v.onError == nil || v.onNext == nil {
+		return
+	}
+	v.onError(err)
+}
+
+func (v *verifControlNilable) tryNext(x int) {
+	v.onNext(x)
 }
 `
